@@ -79,6 +79,8 @@ impl Completions {
             let index = (head & (self.entries_len - 1)) as usize;
             // SAFETY: see below.
             let ptr = unsafe { self.entries.add(index).as_ptr() };
+            #[cfg(a10_verif)]
+            crate::verif::sync_point(crate::verif::SYNC_READ_CQE, ptr);
             // NOTE: initially poisoned in Completions::new.
             asan::unpoison(ptr);
             // SAFETY: the pointer is valid and we've ensured above that the
@@ -93,7 +95,17 @@ impl Completions {
         }
 
         // Let the kernel write more completions.
+        #[cfg(a10_verif)]
+        crate::verif::sync_point(
+            crate::verif::SYNC_STORE_CQ_HEAD,
+            self.entries_head.as_ptr(),
+        );
         unsafe { (&*self.entries_head.as_ptr()).store(head, Ordering::Release) };
+        #[cfg(a10_verif)]
+        crate::verif::sync_point(
+            crate::verif::SYNC_STORE_CQ_HEAD | crate::verif::SYNC_AFTER,
+            self.entries_head.as_ptr(),
+        );
 
         Ok(())
     }
